@@ -166,6 +166,9 @@ def loops_to_comprehensions(tree):
                 x = s.targets[0].id
                 kind = 'list' if isinstance(s.value, ast.List) and not s.value.elts else ('set' if isinstance(s.value, ast.Call) and isinstance(s.value.func, ast.Name) and
                                                                                          s.value.func.id == 'set' and not s.value.args else None)
+                if kind is None and ((isinstance(s.value, ast.Dict) and not s.value.keys) or (isinstance(s.value, ast.Call) and isinstance(s.value.func, ast.Name)
+                                                                                              and s.value.func.id == 'dict' and not s.value.args and not s.value.keywords)):
+                    kind = 'dict'
                 body = nxt.body
                 cond = None
                 conds = []
@@ -178,7 +181,18 @@ def loops_to_comprehensions(tree):
                     body = body[0].body
                 if conds:
                     cond = conds[0] if len(conds) == 1 else ast.BoolOp(op=ast.And(), values=conds)
-                if kind and len(body) == 1 and isinstance(body[0], ast.Expr) and isinstance(body[0].value, ast.Call) and isinstance(body[0].value.func, ast.Attribute) \
+                if kind == 'dict' and len(body) == 1 and isinstance(body[0], ast.Assign) and len(body[0].targets) == 1 and isinstance(body[0].targets[0], ast.Subscript) \
+                        and isinstance(body[0].targets[0].value, ast.Name) and body[0].targets[0].value.id == x:
+                    kexp, vexp = body[0].targets[0].slice, body[0].value
+                    used = {m.id for e in [kexp, vexp, nxt.iter] + list(conds) for m in ast.walk(e) if isinstance(m, ast.Name)}
+                    if x not in used and not any(isinstance(m, (ast.Yield, ast.YieldFrom, ast.Await)) for m in ast.walk(nxt)):
+                        gen = ast.comprehension(target=nxt.target, iter=nxt.iter, ifs=list(conds), is_async=0)
+                        comp = ast.DictComp(key=kexp, value=vexp, generators=[gen])
+                        out.append(ast.copy_location(ast.Assign(targets=[s.targets[0]], value=ast.copy_location(comp, nxt)), s))
+                        n[0] += 1
+                        i += 2
+                        continue
+                if kind in ('list', 'set') and len(body) == 1 and isinstance(body[0], ast.Expr) and isinstance(body[0].value, ast.Call) and isinstance(body[0].value.func, ast.Attribute) \
                         and isinstance(body[0].value.func.value, ast.Name) and body[0].value.func.value.id == x \
                         and body[0].value.func.attr == ('append' if kind == 'list' else 'add') and len(body[0].value.args) == 1 and not body[0].value.keywords:
                     elt = body[0].value.args[0]
